@@ -278,6 +278,18 @@ def corpus():
 
 
 ENGINES = [{"name": "bstream", "gen": gen_all, "corpus": corpus, "nontrivial": nontrivial, "classify": classify, "shards": 12}]
+# the BGP receiver: hostile octets through the real handle_connection over loopback TCP (UPDATEs from the same pool of C04's encoder)
+from props import bgprx_common
+ENGINES.append(bgprx_common.engine(update_pool))
+_bstream_signature = known_signature
+
+
+def known_signature(k, engine, case, mo, spec, im):
+    return bgprx_common.known_signature(k, engine, case, mo, spec, im) or _bstream_signature(k, engine, case, mo, spec, im)
+
+
+TRUSTED_BASE = TRUSTED_BASE + [bgprx_common.BGPRX_TRUSTED]
+ASSUMPTIONS = ASSUMPTIONS + bgprx_common.BGPRX_ASSUMPTIONS
 LEVEL_TEXT = ("Theorems over ALL scripts of read events and every parser, for the model of the BMP connection handler (framing, is_fatal table, read loop, "
               "message dispatch): no panic site is reachable in the repaired code; the read loop terminates on every script (end of file ends the session "
               "instead of being re-read); every connection ends in the post-loop cleanup; it ends only for end of file, unit shutdown, a fatal error kind or "
